@@ -34,6 +34,8 @@ struct Hooks {
     long stop_at_cb     = -1; // call stop() inside this progress callback (0-based index)
     long nan_from_eval  = -1; // f / grad f return NaN from this evaluation on
     long cbs            = 0;
+    long dircalls       = 0;  // calls of the scripted direction provider (initialize / apply / update)
+    long stop_at_dircall = -1;
     long evals_at_stop  = -1;
     long cbs_at_stop    = -1;
     std::function<void()> stopper;
@@ -44,6 +46,14 @@ struct Hooks {
             stopper();
         }
         ++evals;
+    }
+    void on_dircall() {
+        if (dircalls == stop_at_dircall && stopper) {
+            evals_at_stop = evals;
+            cbs_at_stop   = cbs;
+            stopper();
+        }
+        ++dircalls;
     }
     bool poison() const { return nan_from_eval >= 0 && evals > nan_from_eval; }
 };
@@ -134,10 +144,11 @@ struct ScriptedDirection {
     long n_update = 0, n_reset = 0, n_changed = 0;
     ScriptedDirection() = default;
     ScriptedDirection(Params) {}
-    void initialize(const Problem &, crvec, crvec, real_t, crvec, crvec, crvec, crvec) {}
+    void initialize(const Problem &, crvec, crvec, real_t, crvec, crvec, crvec, crvec) { H.on_dircall(); }
     bool has_initial_direction() const { return initial; }
-    bool update(real_t, real_t, crvec, crvec, crvec, crvec, crvec, crvec) { ++n_update; return true; }
+    bool update(real_t, real_t, crvec, crvec, crvec, crvec, crvec, crvec) { H.on_dircall(); ++n_update; return true; }
     bool apply(real_t γ, crvec, crvec, crvec p, crvec grad, rvec q) const {
+        H.on_dircall();
         int kind = script.empty() ? 0 : script[pos++ % script.size()];
         switch (kind) {
             case 0: return false;
@@ -341,6 +352,7 @@ int main() {
             H.stop_at_eval  = vio::ri();
             H.stop_at_cb    = vio::ri();
             H.nan_from_eval = vio::ri();
+            H.stop_at_dircall = vio::ri();
             long ns = vio::ri();
             for (long a = 0; a < ns; ++a) g_script.push_back(static_cast<int>(vio::ri()));
             g_script_initial = vio::ri() != 0;
@@ -368,7 +380,7 @@ int main() {
         } catch (std::exception &e) {
             j.s("exc", e.what());
         }
-        j.i("evals", H.evals).i("cbs", H.cbs).i("evals_at_stop", H.evals_at_stop).i("cbs_at_stop", H.cbs_at_stop);
+        j.i("evals", H.evals).i("cbs", H.cbs).i("dircalls", H.dircalls).i("evals_at_stop", H.evals_at_stop).i("cbs_at_stop", H.cbs_at_stop);
         std::string recs = "[";
         for (size_t a = 0; a < R.lines.size(); ++a) recs += (a ? "," : "") + R.lines[a];
         recs += "]";
